@@ -309,6 +309,28 @@ func (gr *Graph) run(sel selector.Selector, cfg WalkCfg, matchingOnly bool) Walk
 		LinkVisitOnlyOnce: cfg.Once,
 		StartAtPath:       pathOf(cfg.Start),
 	}}
+	// The Config object has been USED BEFORE: an earlier walk with the same *Config, other settings (another start path
+	// of the same length, the opposite link-revisit option, its own budget) and the same selector.  A Config carries
+	// settings, not state: the walk below must not be able to tell.
+	if len(cfg.Start) > 0 || cfg.Once {
+		alt := append([][]int{}, cfg.Start...)
+		if n := len(alt); n > 0 {
+			if len(alt[n-1]) == 1 && alt[n-1][0] == '0' {
+				alt[n-1] = []int{'1'}
+			} else {
+				alt[n-1] = []int{'0'}
+			}
+		}
+		prog.Cfg.StartAtPath = pathOf(alt)
+		prog.Cfg.LinkVisitOnlyOnce = !cfg.Once
+		warm := traversal.Progress{Cfg: prog.Cfg, Budget: &traversal.Budget{NodeBudget: 1 << 40, LinkBudget: 1 << 40}}
+		model.Safe(func() {
+			warm.WalkAdv(gr.Root, sel, func(traversal.Progress, datamodel.Node, traversal.VisitReason) error { return nil })
+		})
+		prog.Cfg.StartAtPath = pathOf(cfg.Start)
+		prog.Cfg.LinkVisitOnlyOnce = cfg.Once
+		r.loads = nil
+	}
 	if cfg.Nb >= 0 || cfg.Lb >= 0 {
 		b := &traversal.Budget{NodeBudget: 1 << 40, LinkBudget: 1 << 40}
 		if cfg.Nb >= 0 {
